@@ -302,17 +302,25 @@ def adjust_offsets_w_sustain(
     # adjust offset times of notes that have a reonset while the sustain pedal is on
     pitches = np.array([n["midi_pitch"] for n in notes])
     note_ons = np.array([n["note_on"] for n in notes])
+    note_offs = np.array([n["note_off"] for n in notes])
 
     for pitch in np.unique(pitches):
         pitch_indices = np.where(pitches == pitch)[0]
 
-        sorted_indices = pitch_indices[np.argsort(note_ons[pitch_indices])]
+        sorted_indices = pitch_indices[np.argsort(note_ons[pitch_indices], kind="stable")]
         sorted_note_ons = note_ons[sorted_indices]
         sorted_sound_offs = offs[sorted_indices]
 
-        adjusted_sound_offs = np.minimum(sorted_sound_offs[:-1], sorted_note_ons[1:])
+        # the first onset of the same pitch at or after the release of each note
+        # (a note is never cut before its own release, nor by itself)
+        next_idx = np.searchsorted(sorted_note_ons, note_offs[sorted_indices], side="left")
+        next_idx = np.maximum(next_idx, np.arange(len(sorted_indices)) + 1)
+        has_next = next_idx < len(sorted_indices)
+        next_ons = sorted_note_ons[np.minimum(next_idx, len(sorted_indices) - 1)]
 
-        offs[sorted_indices[:-1]] = adjusted_sound_offs
+        offs[sorted_indices] = np.where(
+            has_next, np.minimum(sorted_sound_offs, next_ons), sorted_sound_offs
+        )
 
     for offset, note in zip(offs, notes):
         note["sound_off"] = offset
